@@ -448,6 +448,14 @@ def driver(seed, count):
                         emit(f, [x, dint(d)])
             for f in ('CEILING', 'FLOOR'):
                 emit(f, [x, mkdec(neg, [1], top - 1)])
+    # quotients number / significance of 1E+13 and more (where neighbouring doubles are 0.002 ... 1 apart) and almost-multiples with
+    # long operands: the multiple is decided on the decimals, not on a rounded quotient - in every run, whatever the seed
+    for xd, xe, sd, se in (([6, 2, 3, 4, 2, 5], 6, [7, 8, 1, 4], -8), ([9, 9, 9, 9, 9, 0, 0, 0, 0, 0, 0, 0, 0, 1], -9, [1] + [0] * 13 + [1], -14),
+                           ([1], 14, [1] + [0] * 13 + [1], -14), ([4, 1, 7], 9, [3], -4), ([8, 0, 0, 0, 0, 0, 0, 0, 0, 0, 0, 1], 0, [7], -2),
+                           ([2, 5], 11, [9, 9, 9, 9, 9, 9, 9], -7), ([1, 2, 3, 4, 5, 6, 7, 8, 9, 0, 1, 2], 0, [1, 1], -3), ([5], 12, [6], -3)):
+        for neg in (False, True):
+            for f in ('CEILING', 'FLOOR'):
+                emit(f, [mkdec(neg, xd, xe), mkdec(neg, sd, se)])
     while len(ev) < count:
         k = rng.random()
         if k < 0.30:
